@@ -377,6 +377,9 @@ int main(int argc, char** argv) {
         string s; for (char c : u) { s.push_back(c); if (c != '"' && c != 'k') s.push_back(' '); } texts.push_back(s);
       }
     if (texts.empty()) texts = a.mode == "dict" ? vector<string>{"{}", "{ }", "{1:2}", "{\"a\":1,}", "{\"a\":1}"} : vector<string>{"[]", "[ ]", "[1,]", "[1]"};
+    // white space at every token boundary of a small document (also between a key and its colon, which the token texts above leave out)
+    if (a.mode == "dict") for (const char* w : {"{\"k\" : 2}", "{ \"k\" :2 }", "{\"k\"\n:\t2}", "{\"k\":2 ,\"j\" : [ ] }", "[{\"k\" : {}}]"}) texts.push_back(w);
+    else for (const char* w : {"[1 , 2]", "[ 1 ,2 ]", "[\n1\t,\r2 ]"}) texts.push_back(w);
   } else if (a.mode == "selftest") {
     // development aid: random short texts over a JSON-ish alphabet; on a tree without the defects the oracle must stay silent
     const char alpha[] = "[]{},:\"\\ \n/0123456789-+.eExabcdfntrulsXF";
